@@ -53,7 +53,7 @@ def run(ctx) -> Result:
     res.rule("I2", "non-mutator methods of the data classes never write self", 40)
     res.rule("I3", "which compute_consensus_rankings write the algorithm object (recorded; decided by I6)", 9)
     res.rule("I6", "a sequence of runs on shared algorithm / dataset / scheme objects = runs on fresh objects, step by step", 10)
-    res.rule("I4", "random.* reachable from algorithm entry points only inside the KwikSort modules (pivot choice)", 1)
+    res.rule("I4", "random sources (random, numpy.random, secrets, urandom, uuid) reachable from algorithm entry points only inside the KwikSort modules (pivot choice)", 1)
     res.rule("I5", "snapshots of dataset / scheme instances before and after end-to-end evaluation; repeatability", 10)
     res.extra["functions_summarised"] = len(eff.summ)
 
@@ -170,17 +170,24 @@ def run(ctx) -> Result:
     reach = cg.reachable(roots)
     offenders = []
     n_random = 0
-    for f in reach:
+
+    def is_random_source(ext: str) -> bool:
+        return ext.split(".")[0] in ("random", "secrets") or ext.startswith("numpy.random.") or \
+            ext in ("os.urandom", "uuid.uuid1", "uuid.uuid4")
+    for f in proj.all_functions():
+        in_kwik = f.module.name.startswith("corankco.algorithms.kwiksort")
         for cs in cg.sites.get(f.qualname, []):
-            if cs.kind == "external" and cs.external and cs.external.split(".")[0] == "random":
-                n_random += 1
-                if not f.module.name.startswith("corankco.algorithms.kwiksort"):
+            if cs.kind == "external" and cs.external and is_random_source(cs.external):
+                if in_kwik:
+                    n_random += 1           # module-level draw or construction of the module's generator object
+                elif f in reach:
                     offenders.append((f, cs))
     res.check(not offenders and n_random >= 1, "I4", "random:only-through-pivot-choice", "corankco/algorithms",
-              ok_detail=f"{n_random} call(s) of random.* reachable from the entry points, all in the KwikSort modules",
+              ok_detail=f"{n_random} use(s) of a random source in the KwikSort modules; none reachable from an entry point "
+                        f"elsewhere",
               bad_detail=(f"{offenders[0][0].short} ({offenders[0][0].loc(offenders[0][1].node)}) calls "
                           f"{offenders[0][1].external}: results are no longer repeatable") if offenders else
-              "no random call found at all (the pivot is expected to be random)")
+              "no random source found at all in the KwikSort modules (the pivot is expected to be random)")
     # ------------------------------------------------------------------ I5
     _check_snapshots(res, proj, ctx.thorough)
     _check_sequences(res, proj, ctx.thorough)
